@@ -69,10 +69,11 @@ package flows
 
 // ---- C03 / C06: group lists and query based groups
 //@ pred groupsOK(l *GroupList) bool := l != nil && (forall k int :: 0 <= k && k < len(l.groups) ==> l.groups[k] != nil)
-//@ pred noDupUUIDs(gs []*Group) bool := forall a int, b int :: (0 <= a && a < b && b < len(gs)) ==> gs[a].UUID() != gs[b].UUID()
-//@ pred memberOf(l *GroupList, uuid assets.GroupUUID) bool := exists k int :: 0 <= k && k < len(l.groups) && l.groups[k].UUID() == uuid
+//@ pred noDupUUIDs(gs []*Group) bool := forall a int, b int {gs[a], gs[b]} :: (0 <= a && a < b && b < len(gs)) ==> gs[a].UUID() != gs[b].UUID()
+//@ pred memberOf(l *GroupList, uuid assets.GroupUUID) bool opaque := exists k int :: 0 <= k && k < len(l.groups) && l.groups[k].UUID() == uuid
 
 //@ func (l *GroupList) FindByUUID
+//@   reveal memberOf
 //@   pure
 //@   reads GroupList::groups, elems[*Group], Group::Group
 //@   requires groupsOK(l)
@@ -82,6 +83,7 @@ package flows
 //@   invariant forall k int :: 0 <= k && k <= $i ==> l.groups[k].UUID() != uuid
 
 //@ func (l *GroupList) Add
+//@   reveal memberOf
 //@   requires groupsOK(l) && group != nil
 //@   assigns l.groups
 //@   ensures [result] result <==> !old(memberOf(l, group.UUID()))
@@ -92,6 +94,7 @@ package flows
 //@   ensures [nodup] noDupUUIDs(old(l.groups)) ==> noDupUUIDs(l.groups)
 
 //@ func (l *GroupList) Remove
+//@   reveal memberOf
 //@   requires groupsOK(l) && group != nil
 //@   assigns l.groups
 //@   ensures [result] result <==> old(memberOf(l, group.UUID()))
@@ -105,16 +108,21 @@ package flows
 //@   invariant l.groups == old(l.groups)
 
 //@ func (l *GroupList) Clear
+//@   reveal memberOf
 //@   requires l != nil
 //@   assigns l.groups
 //@   ensures len(l.groups) == 0
+//@   ensures [none] forall u assets.GroupUUID :: !memberOf(l, u)
 
 // ---- C06: query based group membership
 // a query based group's verdict on a contact is a function of the group and of the contact's
 // attributes other than its groups (query based groups cannot query group membership)
 //@ func (g *Group) CheckQueryBasedMembership
 //@   pure
-//@   reads Contact::uuid, Contact::id, Contact::name, Contact::language, Contact::status, Contact::timezone, Contact::createdOn, Contact::lastSeenOn, Contact::urns, Contact::fields, Contact::ticket, elems[*ContactURN], ContactURN::urn, ContactURN::channel, map[string]*Value, Value::*, Ticket::*
+//@   havocs EvaluateQuery
+//@   requires g != nil && contact != nil && g.UsesQuery()
+//@   ensures [only_active] contact.status != ContactStatusActive ==> !result
+//@   reads Contact::uuid, Contact::id, Contact::name, Contact::language, Contact::status, Contact::timezone, Contact::createdOn, Contact::lastSeenOn, Contact::urns, Contact::fields, Contact::ticket, elems[*ContactURN], ContactURN::urn, ContactURN::channel, map[string]*FieldValue, FieldValue::*, Value::*, Ticket::*
 
 // the contact's assets: the engine's session assets with group assets whose UUIDs are unique (NewGroupAssets indexes them by UUID)
 //@ pred contactAssetsOK(c *Contact) bool := c != nil && !isnil(c.assets) && c.assets.(*engine.sessionAssets) != nil && c.assets.(*engine.sessionAssets).groups != nil && (forall k int :: 0 <= k && k < len(c.assets.(*engine.sessionAssets).groups.all) ==> c.assets.(*engine.sessionAssets).groups.all[k] != nil) && noDupUUIDs(c.assets.(*engine.sessionAssets).groups.all)
@@ -127,15 +135,33 @@ package flows
 //@   assigns c.groups.groups
 //@   ensures [match] groupsMatch(c, env)
 //@   ensures [others_kept] forall u assets.GroupUUID :: (memberOf(c.groups, u) != old(memberOf(c.groups, u))) ==> (exists k int :: 0 <= k && k < len(c.assets.(*engine.sessionAssets).groups.all) && c.assets.(*engine.sessionAssets).groups.all[k].UsesQuery() && c.assets.(*engine.sessionAssets).groups.all[k].UUID() == u)
-//@   ensures [added] forall j int :: (0 <= j && j < len(result0)) ==> (result0[j] != nil && memberOf(c.groups, result0[j].UUID()) && !old(memberOf(c.groups, result0[j].UUID())))
-//@   ensures [removed] forall j int :: (0 <= j && j < len(result1)) ==> (result1[j] != nil && !memberOf(c.groups, result1[j].UUID()) && old(memberOf(c.groups, result1[j].UUID())))
+//@   ensures [added] forall j int :: (0 <= j && j < len(result0)) ==> (result0[j] != nil && memberOf(c.groups, result0[j].UUID()) && !old(memberOf(c.groups, now(result0[j].UUID()))))
+//@   ensures [removed] forall j int :: (0 <= j && j < len(result1)) ==> (result1[j] != nil && !memberOf(c.groups, result1[j].UUID()) && old(memberOf(c.groups, now(result1[j].UUID()))))
 //@   ensures [rep] groupsOK(c.groups) && noDupUUIDs(c.groups.groups)
+//@   ensures [silent_only_if_unchanged] (len(result0) == 0 && len(result1) == 0) ==> c.groups.groups == old(c.groups.groups)
 //@ loop 1
+//@   invariant (len(added) == 0 && len(removed) == 0) ==> c.groups.groups == old(c.groups.groups)
 //@   invariant groupsOK(c.groups) && noDupUUIDs(c.groups.groups)
 //@   invariant forall k int :: (0 <= k && k <= $i && c.assets.(*engine.sessionAssets).groups.all[k].UsesQuery()) ==> (memberOf(c.groups, c.assets.(*engine.sessionAssets).groups.all[k].UUID()) <==> c.assets.(*engine.sessionAssets).groups.all[k].CheckQueryBasedMembership(env, c))
 //@   invariant forall u assets.GroupUUID :: (memberOf(c.groups, u) != old(memberOf(c.groups, u))) ==> (exists k int :: 0 <= k && k <= $i && c.assets.(*engine.sessionAssets).groups.all[k].UsesQuery() && c.assets.(*engine.sessionAssets).groups.all[k].UUID() == u)
-//@   invariant forall j int :: (0 <= j && j < len(added)) ==> (added[j] != nil && memberOf(c.groups, added[j].UUID()) && !old(memberOf(c.groups, added[j].UUID())) && (exists k int :: 0 <= k && k <= $i && c.assets.(*engine.sessionAssets).groups.all[k] == added[j]))
-//@   invariant forall j int :: (0 <= j && j < len(removed)) ==> (removed[j] != nil && !memberOf(c.groups, removed[j].UUID()) && old(memberOf(c.groups, removed[j].UUID())) && (exists k int :: 0 <= k && k <= $i && c.assets.(*engine.sessionAssets).groups.all[k] == removed[j]))
+//@   invariant noDupUUIDs(c.assets.(*engine.sessionAssets).groups.all)
+//@   invariant forall m int :: ($i < m && m < len(c.assets.(*engine.sessionAssets).groups.all)) ==> (memberOf(c.groups, c.assets.(*engine.sessionAssets).groups.all[m].UUID()) <==> old(memberOf(c.groups, c.assets.(*engine.sessionAssets).groups.all[m].UUID())))
+//@   invariant forall j int :: (0 <= j && j < len(added)) ==> (added[j] != nil && memberOf(c.groups, added[j].UUID()) && !old(memberOf(c.groups, now(added[j].UUID()))))
+//@   invariant forall j int, m int :: (0 <= j && j < len(added) && $i < m && m < len(c.assets.(*engine.sessionAssets).groups.all)) ==> added[j].UUID() != c.assets.(*engine.sessionAssets).groups.all[m].UUID()
+//@   invariant forall j int :: (0 <= j && j < len(removed)) ==> (removed[j] != nil && !memberOf(c.groups, removed[j].UUID()) && old(memberOf(c.groups, now(removed[j].UUID()))))
+//@   invariant forall j int, m int :: (0 <= j && j < len(removed) && $i < m && m < len(c.assets.(*engine.sessionAssets).groups.all)) ==> removed[j].UUID() != c.assets.(*engine.sessionAssets).groups.all[m].UUID()
+
+// parsing a raw field value builds a new Value; it reads the environment and location hierarchy and writes nothing
+// (assumed frame: the computed call graph through the location resolver interface is too coarse)
+//@ func FieldValues.Parse
+//@   trusted
+//@   assigns nothing
+
+// ---- C06 / C03: what any modifier may write, and the representation invariant of the contact's group list it keeps
+//@ interface Modifier.Apply
+//@   requires arg3 != nil && contactAssetsOK(arg3) && groupsOK(arg3.groups) && noDupUUIDs(arg3.groups.groups)
+//@   assigns Contact::name, Contact::language, Contact::status, Contact::timezone, Contact::urns, Contact::ticket, GroupList::groups, ContactURN::*, elems[*ContactURN], elems[*Group], map[string]*FieldValue, FieldValue::*, Value::*, Ticket::*, effects(EventCallback)
+//@   ensures [rep] contactAssetsOK(arg3) && groupsOK(arg3.groups) && noDupUUIDs(arg3.groups.groups)
 
 // ---- C07: definition getters used in router contracts (immutable definitions)
 //@ interface Wait.Timeout
